@@ -147,6 +147,8 @@ CFG = {
         "expressed through the constructor they share to_html / hydrate / rebuild with (lean/Driver/C05.lean): InertElement (= the static element it was "
         "rendered from; C05_inert_walk), keyed (= Vec of the item views), Result (= Option), u32 / Arc<str> / Cow<str> (= String), EitherOf3, "
         "[T; N] (= tuple), OwnedView (transparent), closures (an AnyView that is always replaced on rebuild)",
+        "HtmlElement::to_html_with_buf / to_html_async_with_buf for <textarea> as repaired by 7006223 / 01b809d: the children print without markers, the text is passed "
+        "through encode_text and a leading line feed is doubled (Hydrate.kidsBody = C06's Html.textareaBody with both repairs on; async path: only when the children pushed no asynchronous chunk, Hydrate.kidsOps)",
         "RenderHtml::to_html_with_buf + the Position it leaves for String/&str, (), HtmlElement, tuples, Option, Either, Vec, AnyView "
         "(view/strings.rs, tuples.rs, iterators.rs, either.rs, any_view.rs, html/element/mod.rs)",
         "RenderHtml::hydrate::<true> for the same types; hydration.rs Cursor::{child, sibling, parent, next_placeholder}; "
